@@ -414,3 +414,22 @@ def dist_hook(world, spec, oi, op, q, rec):
             _add(rec, "dist_weights", "dist on %s: the selection list installed for this call is %s (total %s) but the weights evaluate to %s now"
                  % (nm, wl, tot, sorted(exp[nm])), op, oi)
     rec["summary"]["dist_lists_checked"] = n
+    # the rand set that randomises a dist field knows about the dist (otherwise the field is randomised like any other field and
+    # the weights are ignored)
+    for inst in rec["instances"]:
+        fs, sw = phases(inst)
+        if sw is None:
+            continue
+        rs = inst.trace[sw][1]
+        try:
+            fields = set(id(f) for f in rs.all_fields())
+        except Exception:
+            continue
+        for sc, wl, tot in scopes:
+            try:
+                fm = Expr2FieldVisitor().field(sc.dist_c.lhs)
+            except Exception:
+                continue
+            if id(fm) in fields and not any(sc is d for d in rs.dist_field_m.get(fm, [])):
+                _add(rec, "dist_weights", "dist on %s: the rand set that randomises the field does not hold the dist (weights ignored); it knows %s" % (
+                    R.vname(rec["fm_path"].get(id(fm), ("?",))), [getattr(k, "name", "?") for k in rs.dist_field_m.keys()]), op, oi)
